@@ -245,10 +245,14 @@ PLAN["C15"] = dict(
         "threads of a litmus program communicate only through the map, so any happens-before edge between a payload's initialisation and its read comes from flurry (or seize)",
         "an execution counts only if a reader really obtained a payload written by another thread (cross_thread_* counters)",
         "Miri samples schedules and does not emulate every relaxed behaviour; under Miri num_cpus() is 1, so multi-helper resizes are not exercised here",
+        "a reader that registers on a tree bin long after it looked at the lock word needs the writer to run a whole insertion uninterrupted: one program runs with -Zmiri-preemption-rate=0.0001 for that (about one seed in 25 produces the schedule)",
     ],
     miri_classes=["data-race", "ub"],
     require={},
     require_prefix={"miri_seeds_": 8},
     jobs=lambda t: miri_jobs(["list-mix3", "tree-mix3", "grow", "split-trees", "tree-lookups-under-inserts"], q(t, 12, 256), q(t, 4, 16))
-    + miri_jobs(["tree-samebin-mix4", "list-mix4", "tree-grow-from-0", "init-race", "samebin-lookups-under-inserts"], q(t, 4, 128), q(t, 1, 16)),
+    + miri_jobs(["tree-samebin-mix4", "list-mix4", "tree-grow-from-0", "init-race", "samebin-lookups-under-inserts"], q(t, 4, 128), q(t, 1, 16))
+    # late readers walking links stored under the tree's write lock: needs long uninterrupted runs
+    # of the writer, hence the low preemption rate (quick: smoke test; thorough: the exploration)
+    + [J("tree-rotations-late-reader", "miri", ["rotread", 10, 600, q(t, 6, 24), 3], shards=q(t, 2, 16), seeds=(0, q(t, 4, 96)), budget_s=q(t, 150, 1500), miriflags="-Zmiri-preemption-rate=0.0001")],
 )
